@@ -231,6 +231,65 @@ def hash_twin(p: dict, rng: random.Random) -> tuple[dict, dict]:
     return p, {**p, k: v + 1}
 
 
+
+def vanishing_products(rng: random.Random, count: int) -> list[tuple]:
+    """(expression, point): products of 2-10 factors evaluated where one (or two) of the factors is
+    exactly zero — the derivative of a factored polynomial at one of its roots — bare, nested and
+    under other nodes; the vanishing factor sits at any position"""
+    X, V = gen.X, gen.X.Variable
+    x, y, z = V("x"), V("y"), V("z")
+    out = []
+    for _ in range(count):
+        k = rng.choice([2, 3, 3, 4, 5, 6, 6, 7, 8, 10])
+        root = rng.choice([0.0, 1.0, -2.0, 0.5, 3.0])
+        pt = {"x": root, "y": rng.choice([2.0, -1.5, 0.5, 3.0]), "z": rng.choice([1.5, -0.5, 4.0])}
+
+        def nonzero():
+            r = rng.randrange(7)
+            if r == 0:
+                return X.Add(x, X.Constant(rng.choice([5.0, 7.0, -9.0])))
+            if r == 1:
+                return y
+            if r == 2:
+                return X.Add(X.NthPower(x, 2), X.Constant(1.0))
+            if r == 3:
+                return X.Exponential(x)
+            if r == 4:
+                return X.Add(z, X.Multiply(x, y), X.Constant(11.0))
+            if r == 5:
+                return X.Cosine(X.Multiply(X.Constant(0.25), y))
+            return X.Constant(rng.choice([2.0, -3.0, 0.5]))
+
+        def vanishing():
+            r = rng.randrange(5)
+            if r == 0:
+                return X.Minus(x, X.Constant(root)) if root != 0 else x
+            if r == 1:
+                return X.Multiply(X.Minus(x, X.Constant(root)), y)
+            if r == 2:
+                return X.Sine(X.Minus(x, X.Constant(root)))
+            if r == 3:
+                return X.Minus(X.NthPower(x, 3), X.Constant(root ** 3))
+            return X.Minus(X.Multiply(x, z), X.Constant(root * pt["z"]))
+        fs = [nonzero() for _ in range(k)]
+        pos = rng.randrange(k)
+        fs[pos] = vanishing()
+        if rng.random() < 0.25:
+            fs[rng.randrange(k)] = vanishing()
+        e = X.Multiply(*fs)
+        shape = rng.randrange(5)
+        if shape == 1:
+            e = X.Add(e, X.Multiply(y, z))
+        elif shape == 2:
+            e = X.Sine(e)
+        elif shape == 3 and k >= 4:
+            e = X.Multiply(X.Multiply(*fs[: k // 2]), X.Multiply(*fs[k // 2:]))
+        elif shape == 4:
+            e = X.Divide(e, X.Add(X.Constant(2.0), X.NthPower(y, 2)))
+        out.append((e, {n: pt[n] for n in sorted(e._variable_names)}))
+    return out
+
+
 EXTREME = [1e-20, -1e-18, 3e-17, 1e-9, -1e-9, 1e9, 1e20, -1e20, 1e-60, 5e-17, 1e-15, 40.0, -40.0, 700.0]
 
 
